@@ -4,7 +4,7 @@
    Common.bad_indices. *)
 From Coq Require Import ZArith List Bool.
 Import ListNotations.
-Require Import SV.Common SV.C11.Base SV.C11.Utf8 SV.C11.Gen_events SV.C11.Envelope SV.C11.Tick SV.C11.Notify.
+Require Import SV.Common SV.C11.Base SV.C11.Utf8 SV.C11.Gen_events SV.C11.Envelope SV.C11.Tick SV.C11.Notify SV.C11.Routing.
 Open Scope Z_scope.
 
 Definition otext_eqb := option_eqb zlist_eqb.
@@ -101,3 +101,10 @@ Definition check_sup (c : list sop * list (sres * list (evclass * option text)))
 (* sendRemoteCommEvent *)
 Definition check_remote (c : rc_arg * rc_arg * list (evclass * option text)) : bool :=
   let '(ty, d, r) := c in rendered_eqb (rendered (send_remote_comm_event ty d)) r.
+
+(* envelopes of one event on the stdin of the listener of a pool configured with
+   pool_events (counted at byte level by the harness), and the types the pool subscribed *)
+Definition check_routing (c : list evclass * evclass * Z) : bool :=
+  let '(pe, cl, n) := c in deliveries pe cl =? n.
+Definition check_subscription (c : list evclass * list Z) : bool :=
+  let '(pe, r) := c in zlist_eqb (map cls_idx (subscription_types pe)) r.
